@@ -805,6 +805,53 @@ func cmdDkg(prop string, args []string) int {
 				break
 			}
 		}
+		// two generations of different names in the same wallet at the same time, from two initiators:
+		// both must succeed and both accounts must be complete on every participant
+		if prop == "C12" && len(ids) >= 3 {
+			rounds := 2
+			if thorough {
+				rounds = 10
+			}
+			for cr := 0; cr < rounds; cr++ {
+				c.mu.Lock()
+				c.Tamper, c.Log, c.commitGate = nil, nil, nil
+				c.mu.Unlock()
+				n := uint32(len(ids))
+				runs := make([]*dkgRun, 2)
+				var wg sync.WaitGroup
+				for i := range runs {
+					acctN++
+					runs[i] = &dkgRun{IDs: ids, Initiator: ids[(cr+i)%len(ids)], N: n, T: n/2 + 1, Acct: fmt.Sprintf("Wallet 3/c%d", acctN), Accounts: map[uint64]*dkgAccount{}, Polys: map[uint64][]*big.Int{}}
+					wg.Add(1)
+					go func(r *dkgRun) {
+						defer wg.Done()
+						r.PubKey, _, r.Err = c.Nodes[r.Initiator].Process.OnGenerate(ctx, &checker.Credentials{Client: "client1", IP: "10.0.0.1"}, r.Acct, []byte("pass"), r.T, r.N)
+					}(runs[i])
+				}
+				wg.Wait()
+				c.mu.Lock()
+				log := append([]ClusterMsg{}, c.Log...)
+				c.mu.Unlock()
+				for _, r := range runs {
+					for _, m := range log {
+						if m.Kind == "prepare" && m.Account == r.Acct && len(r.Parts) == 0 {
+							r.Parts = append([]uint64{}, m.Participants...)
+						}
+					}
+					for _, id := range ids {
+						if a := readDkgAccount(ctx, c.Nodes[id], r.Acct); a != nil {
+							r.Accounts[id] = a
+						}
+					}
+					stats["concurrent-generation.runs"]++
+					if r.Err != nil {
+						monFail = append(monFail, fmt.Sprintf("generation %q started at the same time as another one on %v failed: %v", r.Acct, ids, r.Err))
+					} else {
+						monFail = append(monFail, judgeSuccess(ctx, c, r, stats, false)...)
+					}
+				}
+			}
+		}
 		c.Close(ctx)
 	}
 	var files []string
